@@ -205,7 +205,17 @@ func (g *exprGen) expr(depth int) string {
 		return "g.id % 2 == 0 ? " + g.expr(depth-1) + " : " + g.expr(depth-1)
 	case 8:
 		g.count("expr:function-call")
-		switch r.Intn(4) {
+		switch r.Intn(6) {
+		case 4, 5:
+			// the final argument expanded: the argument list is rebuilt from the collection's elements on
+			// every call (empty, unknown, null and non-sequence collections included)
+			g.count("expr:call-with-expansion")
+			return r.Pick([]string{
+				"concat(" + g.itemSrc() + "[*].tags...)", "concat(g.items[*].tags...)", "concat([g.id], g.items[*].tags...)", "concat(shared.names, g.items[*].tags...)",
+				`join("-", g.items[*].tags...)`, `join("-", [for x in g.items : x.tags]...)`, "concat(g.items[*].nested[*].w...)", "flatten(g.items[*].nested[*].w...)",
+				"concat(g.tup...)", "concat(g.nullist...)", "concat(g.unklist[*].tags...)", "concat(g.marked[*].tags...)", "length(g.items...)", "yield(g.items...)", "upper(g.set...)",
+				"concat(" + g.strSplat() + ", g.items[*].tags...)",
+			})
 		case 0:
 			return "length(" + g.splat() + ")"
 		case 1:
